@@ -25,6 +25,7 @@ import subprocess
 import time
 
 OUT_SYSCALLS = "write,pwrite64,writev,copy_file_range,sendfile"
+REN_SYSCALLS = "rename,renameat,renameat2"
 TRACE_SYSCALLS = "openat,rename,renameat,renameat2,unlink,unlinkat,linkat,ftruncate," + OUT_SYSCALLS
 MODES = ["onefile", "twofiles", "noconcat"]
 
@@ -176,15 +177,23 @@ def run(ctx):
             if per_points and len(ks) > per_points:
                 step = len(ks) / per_points
                 ks = sorted({ks[int(i * step)] for i in range(per_points)} | {1, 2, maxk, maxk - 1})
-            for variant in ("EIO", "KILL"):
-                for k in ks:
+            # the publishing renames are fault points too: the k-th rename fails (EIO) / the process
+            # dies on entering it (= right after the (k-1)-th rename took effect)
+            nren = sum(1 for o in ops if o.startswith("R:"))
+            dist[f"renames:{label}"] = nren
+            points = [("out", v, k) for v in ("EIO", "KILL") for k in ks] + [("ren", v, k) for v in ("EIO", "KILL") for k in range(1, nren + 1)]
+            for what, variant, k in points:
+                if True:
                     prev = fresh_dir(dest, prevdir if with_prev else None)
-                    inj = f"inject={OUT_SYSCALLS}:error=EIO:when={k}" if variant == "EIO" else f"inject={OUT_SYSCALLS}:signal=KILL:when={k}"
-                    rc, out = sh(["strace", "-f", "-o", "/dev/null", "-e", "trace=none", "-e", inj, exe, "c09child", mode, dest, str(seed)], timeout=60)
+                    calls = OUT_SYSCALLS if what == "out" else REN_SYSCALLS
+                    inj = f"inject={calls}:error=EIO:when={k}" if variant == "EIO" else f"inject={calls}:signal=KILL:when={k}"
+                    if what == "ren":
+                        variant = variant + "-at-rename"
+                    rc, out = sh(["strace", "-f", "-o", "/dev/null", "-e", "trace=" + calls, "-e", inj, exe, "c09child", mode, dest, str(seed)], timeout=60)
                     vrc, vout = sh([exe, "c09verify", mode, dest, str(seed)] + ([str(prev)] if prev else []))
                     r["evaluations"] += 1
                     line = vout.strip().splitlines()[-1] if vout.strip() else ""
-                    m = re.match(r"entry=(\S+) temps=(\d+) files=(.*)$", line)
+                    m = re.match(r"entry=(.*?) temps=(\d+) files=(.*)$", line)
                     if not m:
                         r["fails"].append({"case": my, "sig": "verify", "what": f"{label} {variant}@{k}: cannot classify the directory: {vout[-200:]}"})
                         continue
@@ -193,14 +202,25 @@ def run(ctx):
                     dist[key] = dist.get(key, 0) + 1
                     allowed = {"complete", "absent"} if not with_prev else {"complete", "previous"}
                     if state.split(":")[0] not in allowed:
-                        r["fails"].append({"case": my, "sig": f"destination-{variant}", "what": f"{label}: {variant} at output syscall #{k} (child rc={rc}): destination is {state}; directory: {m.group(3)}"})
+                        r["fails"].append({"case": my, "sig": f"destination-{variant}", "what": f"{label}: {variant} at syscall #{k} of its class (child rc={rc}): destination is {state}; directory: {m.group(3)}"})
                     if rc == 124:
-                        r["fails"].append({"case": my, "sig": f"hang-{variant}", "what": f"{label}: {variant} at output syscall #{k}: creation did not terminate"})
-                    if variant == "EIO" and rc == 1 and temps > 0:
-                        r["fails"].append({"case": my, "sig": "stray-temp", "what": f"{label}: after an error return (EIO at #{k}) {temps} temporary file(s) remain: {m.group(3)}"})
-                    if variant == "EIO" and rc not in (0, 1, 124):
-                        r["fails"].append({"case": my, "sig": "error-not-returned", "what": f"{label}: EIO at output syscall #{k}: creation ended with status {rc} instead of returning an error: {out[-160:]}"})
+                        r["fails"].append({"case": my, "sig": f"hang-{variant}", "what": f"{label}: {variant} at syscall #{k} of its class: creation did not terminate"})
+                    # Not part of C09 (which constrains the destination path only), so counted, not
+                    # reported: temporary files left after an error return, and an I/O error that ends
+                    # the creation by a panic (status 101) instead of an error value.
+                    if variant.startswith("EIO") and rc == 1 and temps > 0:
+                        dist["stray_temp_after_error_return"] = dist.get("stray_temp_after_error_return", 0) + 1
+                    if variant.startswith("EIO") and rc not in (0, 1, 124):
+                        dist["io_error_ended_in_panic_or_abort"] = dist.get("io_error_ended_in_panic_or_abort", 0) + 1
+                    # the injection itself must be effective: a fault at an existing syscall index cannot
+                    # leave the run undisturbed *and* unreported by strace; count undisturbed runs
+                    if rc == 0:
+                        dist["runs_undisturbed"] = dist.get("runs_undisturbed", 0) + 1
             r["distinct"] += 1
+    # self-check of the injector: if (almost) every faulted run completed normally the faults are not
+    # being delivered (e.g. the syscall set is not in strace's trace set) and the run proves nothing
+    if r["evaluations"] >= 20 and dist.get("runs_undisturbed", 0) * 2 > r["evaluations"]:
+        r["problems"].append(f"fault injection ineffective: {dist.get('runs_undisturbed', 0)} of {r['evaluations']} faulted runs completed normally")
     ops_f.close(); imp_f.close(); ids_f.close()
     dist["harness_s"] = round(time.time() - t0, 1)
     # ---- model
